@@ -257,6 +257,88 @@ def S(name):
     return ("str", name.encode())
 
 
+def unhx(a):
+    return b"" if a == "-" else bytes.fromhex(a)
+
+
+def parse_val(text):
+    p = P(text)
+    v = _pval(p)
+    if p.i != len(text):
+        raise ValueError("trailing input in value")
+    return v
+
+
+def _pvlist(p, close):
+    out = []
+    if p.peek() == close:
+        p.i += 1
+        return out
+    while True:
+        out.append(_pval(p))
+        if p.peek() == ",":
+            p.i += 1
+        else:
+            p.eat(close)
+            return out
+
+
+def _pkvs(p):
+    out = []
+    if p.peek() == "}":
+        p.i += 1
+        return out
+    while True:
+        k = _pval(p); p.eat("="); v = _pval(p)
+        out.append((k, v))
+        if p.peek() == ",":
+            p.i += 1
+        else:
+            p.eat("}")
+            return out
+
+
+def _pval(p):
+    if p.peek() == "[":
+        p.i += 1
+        known = True
+        if p.peek() == "?":
+            p.i += 1; known = False
+        return ("seq", known, _pvlist(p, "]"))
+    w = p.word()
+    if w in ("b0", "b1"): return ("bool", w == "b1")
+    if w == "n": return ("none",)
+    if w == "u": return ("unit",)
+    if w == "US": return ("ustruct",)
+    if w in ("S", "NS"):
+        p.eat("("); v = _pval(p); p.eat(")")
+        return ("some" if w == "S" else "ns", v)
+    if w == "T": p.eat("("); return ("tup", _pvlist(p, ")"))
+    if w == "TS": p.eat("("); return ("ts", _pvlist(p, ")"))
+    if w == "R": p.eat("{"); return ("st", _pkvs(p))
+    if w == "M":
+        known = True
+        if p.peek() == "?":
+            p.i += 1; known = False
+        p.eat("{")
+        return ("map", known, _pkvs(p))
+    p.eat(":")
+    a = p.word()
+    if w in INT_KINDS: return ("int", w, int(a))
+    if w == "f32": return ("f32", int(a, 16))
+    if w == "f64": return ("f64", int(a, 16))
+    if w == "c": return ("char", int(a))
+    if w == "s": return ("str", unhx(a))
+    if w == "y": return ("bytes", unhx(a))
+    if w == "UV": return ("uv", a)
+    if w == "NV":
+        p.eat("("); v = _pval(p); p.eat(")")
+        return ("nv", a, v)
+    if w == "TV": p.eat("("); return ("tv", a, _pvlist(p, ")"))
+    if w == "RV": p.eat("{"); return ("rv", a, _pkvs(p))
+    raise ValueError(f"bad value word {w!r}")
+
+
 # ------------------------------------------------------------------ generator
 
 INTERESTING_F32 = [0, 0x80000000, 1, 0x3f800000, 0x7f7fffff, 0x7f800000, 0xff800000, 0x7fc00000, 0x7f800001, 0xffc12345, 0x477fe000]
@@ -370,12 +452,49 @@ def gen_val(rng, t, depth=0, size=None):
         else: c = ("st", [(S(f), gen_val(rng, ft, depth + 1)) for f, ft in sh[1]])
         return ("st", [tagkv, (S(t[2]), c)])
     if k == "un":
-        n, sh = rng.choice(t[1])
-        if sh[0] == "unit": return ("unit",)
-        if sh[0] == "newtype": return gen_val(rng, sh[1], depth + 1)
-        if sh[0] == "tuple": return ("tup", [gen_val(rng, x, depth + 1) for x in sh[1]])
-        return ("st", [(S(f), gen_val(rng, ft, depth + 1)) for f, ft in sh[1]])
+        # untagged enums are first-match: values an earlier variant would also accept are avoided on purpose
+        for _ in range(100):
+            i = rng.randrange(len(t[1]))
+            n, sh = t[1][i]
+            if sh[0] == "unit": v = ("unit",)
+            elif sh[0] == "newtype": v = gen_val(rng, sh[1], depth + 1)
+            elif sh[0] == "tuple": v = ("tup", [gen_val(rng, x, depth + 1) for x in sh[1]])
+            else: v = ("st", [(S(f), gen_val(rng, ft, depth + 1)) for f, ft in sh[1]])
+            if not any(un_accepts(s2, v) for _, s2 in t[1][:i]):
+                return v
+        raise ValueError("cannot generate an unambiguous untagged value")
     raise ValueError(k)
+
+
+def accepts(t, v):
+    """over-approximation of `a value with trace v, once serialised, also deserialises as type t`"""
+    k = t[0]
+    if k == "int": return v[0] == "int" and INT_KINDS[t[1]][0] <= v[2] <= INT_KINDS[t[1]][1]
+    if k in ("f32", "f64"): return v[0] in ("int", "f32", "f64", "char")
+    if k == "char": return v[0] in ("str", "char")
+    if k == "str": return v[0] in ("str", "bytes", "uv")
+    if k == "bytes": return v[0] == "bytes"
+    if k == "bool": return v[0] == "bool"
+    if k == "opt": return True
+    if k == "nt": return accepts(t[1], v[1] if v[0] == "ns" else v)
+    if k in ("unit", "ustruct"): return v[0] in ("unit", "ustruct", "tup", "seq", "map", "st")
+    if k in ("seq", "tup", "ts"): return v[0] in ("seq", "tup", "ts", "unit", "ustruct")
+    if k in ("map", "st", "fl", "it", "at"): return v[0] in ("map", "st", "seq", "tup", "nv", "tv", "rv")
+    return True
+
+
+def un_accepts(sh, v):
+    if sh[0] == "unit": return v[0] == "none"
+    if sh[0] == "newtype": return accepts(sh[1], v)
+    if sh[0] == "tuple":
+        return v[0] in ("tup", "ts", "seq") and len(v[-1]) == len(sh[1]) and all(accepts(x, y) for x, y in zip(sh[1], v[-1]))
+    if v[0] not in ("st", "map"): return False
+    kv = {a[1]: b for a, b in v[-1] if a[0] == "str"}
+    for f, ft in sh[1]:
+        if f.encode() in kv:
+            if not accepts(ft, kv[f.encode()]): return False
+        elif ft[0] != "opt": return False
+    return True
 
 
 # ------------------------------------------------------------------ the documented representation (independent encoder)
@@ -399,8 +518,27 @@ def enc_int(n, opts):
     return head(1, -1 - n, pick_width(-1 - n, opts))
 
 
+def enc_string(maj, b, opts, chunkable=True):
+    """a text / byte string; with opts['chunk'] sometimes as an indefinite-length string"""
+    if chunkable and opts.get("chunk") and opts["rng"].random() < opts["chunk"]:
+        rng = opts["rng"]
+        out = bytes([maj * 32 + 31])
+        if maj == 3:
+            chars = b.decode("utf-8")
+            cut = rng.randint(0, len(chars))
+            parts = [chars[:cut].encode(), chars[cut:].encode()]
+        else:
+            cut = rng.randint(0, len(b))
+            parts = [b[:cut], b[cut:]]
+        for q in parts:
+            if q or rng.random() < 0.3:
+                out += head(maj, len(q), pick_width(len(q), opts)) + q
+        return out + b"\xff"
+    return head(maj, len(b), pick_width(len(b), opts)) + b
+
+
 def enc_text(b, opts):
-    return head(3, len(b), pick_width(len(b), opts)) + b
+    return enc_string(3, b, opts)
 
 
 def _arr(items, opts, may_indef, was_indef):
@@ -451,15 +589,15 @@ def spec_enc(v, opts=None):
     if k == "f64": return b"\xfb" + v[1].to_bytes(8, "big")
     if k == "char": return enc_int(v[1], o)
     if k == "str": return enc_text(v[1], o)
-    if k == "bytes": return head(2, len(v[1]), pick_width(len(v[1]), o)) + v[1]
+    if k == "bytes": return enc_string(2, v[1], o)
     if k == "none": return b"\xf6"
     if k == "some": return spec_enc(v[1], o)
-    if k in ("unit", "ustruct"): return b"\x80"
+    if k in ("unit", "ustruct"): return _arr([], o, bool(o.get("fliptup")), False)
     if k == "uv": return enc_text(v[1].encode(), o)
     if k == "ns": return spec_enc(v[1], o)
     if k == "nv": return head(5, 1, pick_width(1, o)) + enc_text(v[1].encode(), o) + spec_enc(v[2], o)
     if k == "seq": return _arr([spec_enc(x, o) for x in v[2]], o, True, not v[1])
-    if k in ("tup", "ts"): return _arr([spec_enc(x, o) for x in v[1]], o, False, False)
+    if k in ("tup", "ts"): return _arr([spec_enc(x, o) for x in v[1]], o, bool(o.get("fliptup")), False)
     if k == "tv":
         return head(5, 1, pick_width(1, o)) + enc_text(v[1].encode(), o) + _arr([spec_enc(x, o) for x in v[2]], o, False, False)
     if k == "map": return _map([(spec_enc(a, o), spec_enc(b, o)) for a, b in v[2]], o, True, not v[1])
@@ -545,7 +683,7 @@ def wellformed_one(b):
 
 # ------------------------------------------------------------------ known classes (K6 / K7 / Option in Option)
 
-def known_classes(t, v):
+def known_classes(t, v, content_first=False):
     """walks type and value together; returns the set of exclusion / known-finding classes the
     value falls into:  'K6' char behind serde's Content buffer, 'K7' unit (empty array) behind
     it, 'OO' Some(None) of an Option directly inside an Option (the property's own exclusion)."""
@@ -602,7 +740,7 @@ def known_classes(t, v):
             if len(v[1]) > 1:
                 c = v[1][1][1]
                 pl = c if sh[0] == "newtype" else c[1]
-                variant_walk(sh, pl, behind, ref)
+                variant_walk(sh, pl, behind or content_first, ref)
         elif k == "un":
             # which variant produced the value is not recorded in the trace: any variant of that shape
             for _, sh in t[1]:
